@@ -1116,7 +1116,9 @@ def r_sel(E):
                 hot = True
             if isinstance(t, ast.Name) and fn is not None:
                 for a in ast.walk(fn):
-                    if isinstance(a, ast.Assign) and any(isinstance(x, ast.Name) and x.id == t.id for x in a.targets):
+                    # (`x = <collection>` or, in a test, `(x := <collection>)`)
+                    if (isinstance(a, ast.Assign) and any(isinstance(x, ast.Name) and x.id == t.id for x in a.targets)) or (
+                            isinstance(a, ast.NamedExpr) and a.target.id == t.id):
                         v = a.value
                         if isinstance(v, ast.Attribute) and v.attr in hashy:
                             hot = True
@@ -1138,6 +1140,11 @@ def r_sel(E):
             else:
                 from ..astutil import expanded
                 src_coll = expanded(t, fn) if fn is not None else t
+                if isinstance(src_coll, ast.Name) and fn is not None:
+                    ws_ = [a_.value for a_ in ast.walk(fn) if isinstance(a_, ast.NamedExpr) and a_.target.id == src_coll.id]
+                    if len(ws_) == 1 and not any(isinstance(a_, ast.Assign) and any(
+                            isinstance(x_, ast.Name) and x_.id == src_coll.id for x_ in a_.targets) for a_ in ast.walk(fn)):
+                        src_coll = ws_[0]
                 if isinstance(src_coll, ast.Attribute) and src_coll.attr in SEL_SINGLETON_COLLECTIONS:
                     why = SEL_SINGLETON_COLLECTIONS[src_coll.attr]
                 elif q in SEL_ALLOWED:
